@@ -97,6 +97,34 @@ pub fn run(rng: &mut Rng, n: usize, rep: &mut Report) {
     while cells < n {
         let Some(base) = prepare(rng) else { rep.bump("prepare_failed"); cells += 1; continue };
         // ------------------------------------------------------------ protocol pause matrix
+        // an EXTENDED pause (second pause 600 s into the first one shifts the start into the future):
+        // the gate must stay closed from the propagation until start + 1800 = t0 + 3600
+        for (timing, off, expect_paused) in [("extended+601", 1i64, true), ("extended+1799", 1199, true), ("extended+1800", 1200, true), ("extended+3599", 2999, true), ("extended+3600", 3000, false)] {
+            for (name, act) in actions() {
+                if name == "collect_fees" {
+                    continue;
+                }
+                let mut s = clone_scen(&base);
+                let mut scratch = Report::default();
+                let ok1 = s.w.exec(&ix::panic_pause(s.fee_admin)).is_ok();
+                s.w.advance(600);
+                let ok2 = s.w.exec(&ix::panic_pause(s.fee_admin)).is_ok();
+                let ok3 = s.w.exec(&ix::propagate_fee_state(s.group)).is_ok();
+                if !(ok1 && ok2 && ok3) {
+                    rep.fail(format!("setup of the extended pause failed ({} {} {})", ok1, ok2, ok3));
+                    continue;
+                }
+                s.w.advance(off);
+                let r = s.step(&act, &mut scratch);
+                cells += 1;
+                rep.bump("cases");
+                rep.bump(&format!("pause_{}", timing));
+                let code = match &r { Some(Err(e)) => e.code(), _ => None };
+                if expect_paused != (code == Some(PROTOCOL_PAUSED)) {
+                    rep.fail(format!("{} during an extended protocol pause ({}): expected paused={}, got {:?}", name, timing, expect_paused, r.as_ref().map(|x| x.as_ref().map_err(|e| e.to_string()))));
+                }
+            }
+        }
         for (timing, offset, propagate_after_pause, expect_paused) in [
             ("not-paused", None, false, false),
             ("paused+0", Some(0i64), true, true),
